@@ -81,12 +81,14 @@ fn constructor_case(specs: &Specs, ops: &[Op], prop: &'static str) {
     let start = vec![Model::new(*specs)];
     let after_nodes: Vec<Model> = model_apply(&start, &Op::AddNodes(nodes.clone())).into_iter().map(|x| x.1).collect();
     let predicted = model_apply(&after_nodes, &Op::AddEdges(edges.clone()));
+    // identical edges are passed as clones of one Arc (as in `vec![edge; k]`)
+    let mut arcs: std::collections::HashMap<String, std::sync::Arc<graphrs::Edge<String, i32>>> = std::collections::HashMap::new();
+    let real_edges: Vec<_> = edges
+        .iter()
+        .map(|e| arcs.entry(format!("{:?}>{:?}|{}|{:?}", e.u, e.v, wkey(e.w), e.attr)).or_insert_with(|| e.to_real()).clone())
+        .collect();
     let res = guard("new_from_nodes_and_edges", || {
-        Graph::<String, i32>::new_from_nodes_and_edges(
-            nodes.iter().map(|(n, at)| mnode(n, *at)).collect(),
-            edges.iter().map(|e| e.to_real()).collect(),
-            specs.to_real(),
-        )
+        Graph::<String, i32>::new_from_nodes_and_edges(nodes.iter().map(|(n, at)| mnode(n, *at)).collect(), real_edges, specs.to_real())
     });
     ctx::eval(1);
     let kind = format!("{}{}", if specs.directed { "directed" } else { "undirected" }, if specs.multi { "-multi" } else { "" });
@@ -138,6 +140,21 @@ pub fn run_c02(a: &Args) {
                 let (x, y) = if k % 2 == 0 { (&u, &v) } else { (&v, &u) };
                 ops.push(Op::AddEdge(MEdge::new(x, y, draw_weight(wmode, &mut rng), Some(k))));
             }
+        }
+        if idx % 5 == 4 {
+            // a larger graph: 24-40 filler nodes around the small query universe
+            let fillers: Vec<(String, Option<i32>)> = (0..rng.range(24, 40)).map(|i| (format!("n{:02}", i), None)).collect();
+            let mut with_edges = vec![Op::AddNodes(fillers.clone())];
+            for k in 0..rng.range(3, 10) {
+                let u = fillers[rng.below(fillers.len())].0.clone();
+                let v = if rng.coin() { names[rng.below(names.len())].clone() } else { fillers[rng.below(fillers.len())].0.clone() };
+                with_edges.push(Op::AddEdge(MEdge::new(&u, &v, draw_weight(wmode, &mut rng), Some(k as i32))));
+            }
+            let at = rng.below(ops.len() + 1);
+            for (k, op) in with_edges.into_iter().enumerate() {
+                ops.insert((at + k).min(ops.len()), op);
+            }
+            ctx::count("reach:graph-with-more-than-16-nodes");
         }
         ctx::case_desc(history_desc(&specs, &ops));
         let lock = run_history(specs, &names, &ops, &mon);
@@ -227,9 +244,33 @@ pub fn run_c03(a: &Args) {
         }
         let specs = specs_all[(idx / per_spec) as usize];
         let mut rng = Rng::new(mix(a.seed ^ 0xC03, idx));
-        let wmode = if rng.chance(3, 4) { WMode::AllReal } else { WMode::AllNaN };
+        let wmode = match rng.below(8) {
+            0 | 1 => WMode::AllNaN,
+            2 => WMode::Ulps,
+            _ => WMode::AllReal,
+        };
         let len = rng.range(2, maxlen);
         let (names, mut ops) = gen_history(&mut rng, len, wmode, wmode == WMode::AllNaN);
+        if idx % 7 == 6 && wmode != WMode::AllNaN {
+            // a hub with 60..70 neighbours, then duplicates (smaller / larger weight, both
+            // orientations) towards old and recent neighbours
+            let hub = names[0].clone();
+            let deg = rng.range(60, 70);
+            let fillers: Vec<String> = (0..deg).map(|i| format!("h{:02}", i)).collect();
+            let mut pre = vec![Op::AddNodes(std::iter::once((hub.clone(), None)).chain(fillers.iter().map(|f| (f.clone(), None))).collect())];
+            for f in &fillers {
+                let (x, y) = if rng.coin() { (&hub, f) } else { (f, &hub) };
+                pre.push(Op::AddEdge(MEdge::new(x, y, draw_weight(wmode, &mut rng), None)));
+            }
+            for _ in 0..rng.range(2, 6) {
+                let f = &fillers[if rng.coin() { rng.below(deg) } else { deg - 1 - rng.below(8) }];
+                let (x, y) = if rng.coin() { (&hub, f) } else { (f, &hub) };
+                pre.push(Op::AddEdge(MEdge::new(x, y, draw_weight(wmode, &mut rng), None)));
+            }
+            pre.extend(ops);
+            ops = pre;
+            ctx::count("reach:hub-with-60-or-more-neighbours");
+        }
         // forced "second edge, smaller weight" / "larger weight" steps, both orientations
         if wmode == WMode::AllReal && names.len() >= 2 {
             let u = names[0].clone();
@@ -249,8 +290,8 @@ pub fn run_c03(a: &Args) {
         }
         ctx::case_desc(history_desc(&specs, &ops));
         let lock = run_history(specs, &names, &ops, &mon);
-        let weighted = wmode == WMode::AllReal && lock.g.edges_have_weight() && !lock.g.get_all_edges().is_empty();
-        weighted_boundary_checks(&lock.g, "C03", weighted, idx % 3 == 0);
+        let weighted = wmode != WMode::AllNaN && lock.g.edges_have_weight() && !lock.g.get_all_edges().is_empty();
+        weighted_boundary_checks(&lock.g, "C03", weighted, idx % 3 == 0 && wmode != WMode::Ulps && lock.g.number_of_nodes() <= 40);
         if lock.tags.iter().any(|t| t.contains("second-edge")) {
             ctx::nontrivial(history_hash(&specs, &ops));
             if ops.len() <= 8 {
@@ -558,7 +599,39 @@ pub fn run_c09(a: &Args) {
             ops.push(Op::AddEdge(MEdge::new(&v, &u, draw_weight(wmode, &mut rng), None)));
             ops.push(Op::AddEdge(MEdge::new(&u, &v, draw_weight(wmode, &mut rng), None)));
         }
-        ctx::case_desc(history_desc(&specs, &ops));
+        if idx % 960 == 959 {
+            // bulk shape: a hub with 129..140 incident edges, more than 1000 connected pairs,
+            // 129+ parallel edges on one pair when the graph is a multigraph
+            let nf = 48;
+            let fillers: Vec<String> = (0..nf).map(|i| format!("n{:02}", i)).collect();
+            let mut bulk = vec![];
+            let hub = names[0].clone();
+            for i in 0..rng.range(129, 140) {
+                let f = &fillers[i % nf];
+                let (x, y) = if rng.coin() { (&hub, f) } else { (f, &hub) };
+                bulk.push(MEdge::new(x, y, draw_weight(wmode, &mut rng), None));
+            }
+            for a in 0..nf {
+                for b in 0..nf {
+                    if a != b && (specs.directed || a < b) && rng.chance(if specs.directed { 1 } else { 2 }, 2) {
+                        bulk.push(MEdge::new(&fillers[a], &fillers[b], draw_weight(wmode, &mut rng), None));
+                    }
+                }
+            }
+            if specs.multi {
+                for _ in 0..rng.range(129, 135) {
+                    bulk.push(MEdge::new(&fillers[0], &fillers[1], draw_weight(wmode, &mut rng), None));
+                }
+            }
+            rng.shuffle(&mut bulk);
+            ops.insert(0, Op::AddNodes(fillers.iter().map(|f| (f.clone(), None)).chain(std::iter::once((hub.clone(), None))).collect()));
+            // one edge per op: a batch would stop at the first rejected duplicate
+            for (k, e) in bulk.into_iter().enumerate() {
+                ops.insert(1 + k, Op::AddEdge(e));
+            }
+            ctx::count("reach:bulk-graph-with-more-than-1000-pairs");
+        }
+        ctx::case_desc(if ops.len() > 60 { json!({"specs": specs.label(), "history": "bulk case (regenerate with --only-case)"}) } else { history_desc(&specs, &ops) });
         let mut lock = run_history(specs, &names, &ops, &mon);
         if lock.cands.is_empty() {
             lock.cands = vec![model_from_graph(&lock.g)];
@@ -594,7 +667,7 @@ fn adopt_and_mutate(g: G, names: &[String], rng: &mut Rng, func: &'static str) {
     let mon = Monitors { prop: "C15", mutation_semantics: true, queries: true, traversal: true, counts: false, every_op: true };
     let mut all_names = names.to_vec();
     all_names.push(ABSENT.to_string());
-    let mut lock = Lock { g, cands: vec![m], order_known: false, names: all_names, tags: BTreeSet::new() };
+    let mut lock = Lock { g, cands: vec![m], order_known: false, names: all_names, tags: BTreeSet::new(), arcs: std::collections::HashMap::new() };
     quiescent_checks(&mut lock, &mon);
     let wm = if lock.cands[0].edges.iter().all(|e| e.w.is_nan()) { WMode::AllNaN } else { WMode::AllReal };
     let (_, ops) = gen_history(rng, 5, wm, wm == WMode::AllNaN);
@@ -663,6 +736,31 @@ fn derived_checks(lock: &Lock, names: &[String], rng: &mut Rng, thorough: bool) 
                     let sm = model_from_graph(&sg);
                     ctx::eval(check_snapshot_indexes(&sg, &sm, false, "C15"));
                     ctx::eval(check_traversal_lists(&sg, &sm, "C15"));
+                }
+            }
+        }
+    }
+    // ---- get_subgraph with small subsets of ALL nodes, listed in an order unlike the graph's
+    if m.nodes.len() > 12 {
+        for _ in 0..6 {
+            let mut subset: Vec<String> = (0..rng.range(2, 4)).map(|_| m.nodes[rng.below(m.nodes.len())].0.clone()).collect();
+            subset.push(ABSENT.to_string());
+            subset.sort();
+            subset.reverse();
+            if rng.coin() {
+                rng.shuffle(&mut subset);
+            }
+            let sset: BTreeSet<&String> = subset.iter().collect();
+            let want_nodes: Vec<(String, Option<i32>)> = m.nodes.iter().filter(|x| sset.contains(&x.0)).cloned().collect();
+            let want_edges: Vec<String> = m.edges.iter().filter(|e| sset.contains(&e.u) && sset.contains(&e.v)).map(|e| ekey(d, &e.u, &e.v, e.w, &e.attr)).collect();
+            ctx::eval(1);
+            match guard("get_subgraph", || g.get_subgraph(&subset)) {
+                Err(c) => fail("get_subgraph", &c.class(), json!({"subset": subset, "caught": c.json()})),
+                Ok(sg) => {
+                    if !state_eq(&sg, &want_nodes, want_edges.clone()) {
+                        fail("get_subgraph", "not-the-induced-subgraph", json!({"subset": subset, "got_nodes": format!("{:?}", sg.get_all_nodes().iter().map(|n| (n.name.clone(), n.attributes)).collect::<Vec<_>>()), "want_nodes": format!("{:?}", want_nodes), "got_edges": sorted_edge_keys(d, sg.get_all_edges()), "want_edges": want_edges}));
+                    }
+                    ctx::count("reach:small-subset-of-a-large-graph");
                 }
             }
         }
@@ -794,8 +892,31 @@ pub fn run_c15(a: &Args) {
         let mut rng = Rng::new(mix(a.seed ^ 0xC15, idx));
         let wmode = pick_wmode(&mut rng, true);
         let len = rng.range(2, maxlen);
-        let (names, ops) = gen_history(&mut rng, len, wmode, true);
-        ctx::case_desc(history_desc(&specs, &ops));
+        let (names, mut ops) = gen_history(&mut rng, len, wmode, true);
+        if idx % 12 == 11 {
+            // 70..100 filler nodes (size-triggered fast paths) and, on multigraphs, one pair with
+            // 129..135 parallel edges
+            let nf = rng.range(70, 100);
+            let fillers: Vec<(String, Option<i32>)> = (0..nf).map(|i| (format!("n{:03}", (i * 37) % nf), Some(i as i32))).collect();
+            let mut pre = vec![Op::AddNodes(fillers.clone())];
+            for _ in 0..rng.range(5, 20) {
+                let u = fillers[rng.below(nf)].0.clone();
+                let v = if rng.coin() { names[rng.below(names.len())].clone() } else { fillers[rng.below(nf)].0.clone() };
+                pre.push(Op::AddEdge(MEdge::new(&u, &v, draw_weight(wmode, &mut rng), None)));
+            }
+            if specs.multi {
+                for _ in 0..rng.range(129, 135) {
+                    let (x, y) = if rng.coin() { (&names[0], &names[names.len() - 1]) } else { (&names[names.len() - 1], &names[0]) };
+                    pre.push(Op::AddEdge(MEdge::new(x, y, if wmode == WMode::AllNaN { f64::NAN } else { rng.range(1, 8) as f64 / 4.0 }, None)));
+                }
+            }
+            let at = rng.below(ops.len() + 1);
+            for (k, op) in pre.into_iter().enumerate() {
+                ops.insert((at + k).min(ops.len()), op);
+            }
+            ctx::count("reach:source-graph-with-more-than-64-nodes");
+        }
+        ctx::case_desc(if ops.len() > 60 { json!({"specs": specs.label(), "history": "large case (regenerate with --only-case)"}) } else { history_desc(&specs, &ops) });
         let mut lock = run_history(specs, &names, &ops, &mon);
         if lock.cands.is_empty() {
             lock.cands = vec![model_from_graph(&lock.g)];
